@@ -1034,7 +1034,9 @@ class Parser(AttrParser):
         )
 
     def _parse_external_resources(self) -> None:
-        raise NotImplementedError("Currently only dialect resources are supported")
+        self.raise_error(
+            "external_resources are not supported, only dialect_resources are"
+        )
 
     def _parse_metadata_element(self) -> None:
         resource_type = self._parse_token(
